@@ -79,11 +79,13 @@ func (i *argumentsPropIter) next() (propIterItem, iterNextFunc) {
 		if prop.writable && prop.enumerable && prop.configurable {
 			item.value = *prop.v
 		} else {
-			item.value = &valueProperty{
-				value:        *prop.v,
-				writable:     prop.writable,
-				configurable: prop.configurable,
-				enumerable:   prop.enumerable,
+			// the attributes live in the mapped property itself: the consumer looks it up (a copy handed out here
+			// would be modified in place by Object.freeze / Object.seal instead of the property)
+			item.value = nil
+			if prop.enumerable {
+				item.enumerable = _ENUM_TRUE
+			} else {
+				item.enumerable = _ENUM_FALSE
 			}
 		}
 	}
